@@ -27,7 +27,9 @@ RULE = ("[phase 2: + lazy results requested under one configuration and consumed
         "implicit configuration and no_color; round 5: line objects kept and rendered afterwards, two enum field types with "
         "overlapping values (reference also from a fresh interpreter), equally named helper-made palette classes; round 6: "
         "texts handed out by a result (fixed_len / get_ch_text / + / slices) extended in place by the caller before the "
-        "result is consumed again, the palette given as the object synced with the global configuration x no_color] histories of 3-16 operations over 1-5 configurations (created, dropped with gc.collect(), made global), 1-2 enum "
+        "result is consumed again, the palette given as the object synced with the global configuration x no_color; round 7: "
+        "console help about objects / bound methods / classes whose hook hands out stored, possibly shared notes, asked "
+        "several times] histories of 3-16 operations over 1-5 configurations (created, dropped with gc.collect(), made global), 1-2 enum "
         "field types and 2-4 printable objects of all five kinds (pretty-printed data, tables incl. enum columns / limits / "
         "break lines / multi-line titles / truncation, record formats, git history reports over stub data, console help), "
         "each rendered coloured, without colours, line by line (before or after the whole text); streams: random, `reuse` "
@@ -313,6 +315,41 @@ def _mk_hfunc(spec):
     return h_doc(f)
 
 
+def _mk_hclass(spec):
+    """an h-doc friendly class and an instance of it; the hook `_get_hdoc_method_notes` either builds the notes of a
+    method on every call or hands out notes objects that were made once (stored; several methods may share one)"""
+    from ak.hdoc import h_doc, BoundMethodNotes
+    ns = {"__doc__": spec["doc"]}
+    for m in spec["methods"]:
+        loc = {}
+        exec("def %s(self%s):\n    pass\n" % (m["name"], (", " + m["args"]) if m["args"] else ""), loc)
+        loc[m["name"]].__doc__ = m["doc"]
+        ns[m["name"]] = loc[m["name"]]
+    which = {m["name"]: m.get("notes") for m in spec["methods"]}
+    notes_spec = spec.get("notes", [])
+
+    def mk(i):
+        a, sh, ln = notes_spec[i]
+        return BoundMethodNotes(bool(a), sh, ln)
+    if spec.get("hook") in ("stored", "fresh"):
+        stored = spec["hook"] == "stored"
+
+        def _get_hdoc_method_notes(self, bound_method, _c):
+            """Notes for h-doc.
+
+            #no_hdoc
+            """
+            i = which.get(bound_method.__name__)
+            if i is None:
+                return BoundMethodNotes(True, "", "")
+            return self._notes[i] if stored else mk(i)
+        ns["_get_hdoc_method_notes"] = _get_hdoc_method_notes
+    cls = h_doc(type(spec["name"], (), ns))
+    inst = cls()
+    inst._notes = [mk(i) for i in range(len(notes_spec))]       # made once, for the whole life of the object
+    return cls, inst
+
+
 class _Obj:
     """a printable object of a history with its uniform rendering interface"""
 
@@ -342,8 +379,13 @@ class _Obj:
             self.record = tuple(_val(x) for x in spec["record"])
         elif k == "ghist":
             self.report = _mk_ghist(spec)
+        elif k == "hcmd" and "inst_of" in spec:
+            self.hcls, self.inst = src.hcls, src.inst        # another view (object / method / class) of the same subject
+        elif k == "hcmd" and "methods" in spec:
+            self.hcls, self.inst = _mk_hclass(spec)
         elif k == "hcmd":
-            self.func = _mk_hfunc(spec)
+            self.hcls = self.inst = None
+            self._func = _mk_hfunc(spec)
         else:
             raise ValueError("unknown kind " + k)
         for f in fmts:
@@ -351,6 +393,18 @@ class _Obj:
 
     def set_fmt(self, fmt):
         self.table.fmt = fmt
+
+    @property
+    def func(self):
+        """what `h(...)` is asked about: a function, an object, one of its bound methods, or the class"""
+        if self.inst is None:
+            return self._func
+        t = self.spec.get("target", "obj")
+        return self.inst if t == "obj" else self.hcls if t == "cls" else getattr(self.inst, t[2:])
+
+    def _hcommand(self):
+        from ak.hdoc import HCommand
+        return HCommand(self.spec.get("level", HCommand._LEVEL_H))
 
     @property
     def proto_kind(self):
@@ -399,7 +453,7 @@ class _Obj:
         """iteration over the result: list of generated lines (CHText or list of chunks)"""
         from ak.hdoc import HCommand
         if self.kind == "hcmd":
-            h = HCommand()          # palette of the global configuration, made at construction
+            h = self._hcommand()    # palette of the global configuration, made at construction
             if palette is not None:
                 h._c = palette
             return list(h._gen_ch_lines(self.func, HCommand._DFLT_FILT_ARG, dets_level=h.dets_level, fmt_oneline=False))
@@ -412,7 +466,7 @@ class _Obj:
         from ak.hdoc import HCommand
         nc = mode in ("n", "m", "M")
         if self.kind == "hcmd":
-            return (HCommand()._make_help_text(self.func),)
+            return (self._hcommand()._make_help_text(self.func),)
         res = self.result(conf, nc, pk=pk)
         if self.kind == "rec":
             return (str(res), str(res.ch_text()))
@@ -506,7 +560,8 @@ def _probe_enum_class():
 def _fresh(objs, o, enums, fmts=()):
     """a fresh copy of object `o` of a case (and of the table it takes its format object from, never printed)"""
     spec = objs[o]
-    src = _fresh(objs, spec["fmt_of"], enums) if "fmt_of" in spec else None
+    src = (_fresh(objs, spec["fmt_of"], enums) if "fmt_of" in spec else
+           _fresh(objs, spec["inst_of"], enums) if "inst_of" in spec else None)
     return _Obj(spec, enums, src, fmts)
 
 
@@ -740,7 +795,7 @@ def _replay(case, before=None, after=None):
     def get_obj(o):
         if o not in objs:
             spec = case["objs"][o]
-            src = get_obj(spec["fmt_of"]) if "fmt_of" in spec else None
+            src = get_obj(spec["fmt_of"]) if "fmt_of" in spec else get_obj(spec["inst_of"]) if "inst_of" in spec else None
             objs[o] = _Obj(spec, enums, src, fmts.get(o, ()))
         return objs[o]
     for i, op in enumerate(case["ops"]):
@@ -1474,7 +1529,27 @@ def _rand_ghist(rng):
     return {"kind": "ghist", "repos": repos}
 
 
+def _rand_hclass(rng):
+    """console help about an object whose hook hands out notes: built anew or stored, possibly shared"""
+    notes = [[rng.random() < 0.85, rng.choice(["[token]", "n/a", "", "(admin)"]),
+              rng.choice(["requires token access", "", "! not available now !"])] for _ in range(rng.randrange(1, 3))]
+    methods = []
+    for name in rng.sample(["get_user", "ping", "drop", "list_all"], rng.randrange(1, 4)):
+        doc = rng.choice(["Fetch the user.", "Check connection.", "Do it", ""])
+        if doc and rng.random() < 0.7:
+            doc += "\n\n        " + rng.choice(["Details.", "More\n        lines."])
+        if doc and rng.random() < 0.7:
+            doc += "\n\n        #" + rng.choice(["users", "misc", "admin"]) + "\n        "
+        methods.append({"name": name, "args": rng.choice(["", "user_id", "a, b=2"]), "doc": doc,
+                        "notes": rng.choice([None] + list(range(len(notes))) * 2)})
+    return {"kind": "hcmd", "name": rng.choice(["Client", "Svc"]), "doc": rng.choice(["Client of some service.", "", "Svc\n\n    long"]),
+            "methods": methods, "notes": notes, "hook": rng.choice(["stored", "stored", "fresh", "none"]),
+            "target": rng.choice(["obj", "obj", "cls", "m:" + methods[0]["name"]]), "level": rng.choice([1, 1, 2])}
+
+
 def _rand_hcmd(rng):
+    if rng.random() < 0.5:
+        return _rand_hclass(rng)
     doc = rng.choice(["Short descr.", "Does things #inline", "", "One line"])
     if rng.random() < 0.7:
         doc += "\n\n    " + rng.choice(["Long text.", "Two\n    lines of details."])
@@ -1901,6 +1976,28 @@ def _gen_two_enums(rng):
     return _finish(case)
 
 
+def _gen_help_twice(rng):
+    """the same help subject asked about several times (the object, one of its methods, both orders), other
+    renderings in between"""
+    base = _rand_hclass(rng)
+    base["hook"] = rng.choice(["stored", "stored", "fresh"])
+    base["target"] = "obj"
+    objs = {"0": base,
+            "1": {"kind": "hcmd", "inst_of": "0", "target": "m:" + rng.choice(base["methods"])["name"], "level": rng.choice([1, 2])},
+            "2": {"kind": "pp", "json": False, "value": _rand_json(rng, 2)}}
+    confs = {"1": _rand_conf(rng, False)}
+    ops = [["conf", "1"]]
+    if rng.random() < 0.5:
+        ops.append(["setglobal", "1"])
+    seq = [rng.choice("01") for _ in range(rng.randrange(2, 5))]
+    for o in seq:
+        ops.append(["render", o, "g", "c"])
+        if rng.random() < 0.4:
+            ops.append(["render", "2", rng.choice(["1", "g"]), rng.choice("cn")])
+    case = {"ops": ops, "confs": confs, "enums": {}, "objs": objs, "meta": {"kind": "help-twice"}}
+    return _finish(case)
+
+
 def _gen_same_named(rng):
     """two palette classes with the same module and qualified name and different SYNTAX_DEFAULTS under one configuration"""
     objs = {"0": {"kind": "pp", "json": False, "value": {"d": [["k", [1, None, "s", 2.5]], ["n", 7]]}},
@@ -1935,6 +2032,8 @@ def gen_cases(rng, tier):
             yield _gen_same_named(rng)
         elif j == 19:
             yield _gen_two_enums(rng)
+        elif j == 9:
+            yield _gen_help_twice(rng)
         else:
             pattern = "reuse" if i % 3 == 0 else "aba" if i % 10 == 7 else "random"
             yield _gen_history(rng, tier, late, pattern)
@@ -2126,7 +2225,10 @@ LEVEL_TEXT = ("NOT proved: that the real layout (texts, widths, line breaks) doe
               "iterators are part of the histories; lazy_lines_history_free / lazy_whole_history_free prove that what an "
               "iterator or the first str() gives, whenever and however interleaved, is the pure painting of the object's "
               "lines for the configuration the result was requested for (a held palette is never collected nor overwritten).")
-LEVEL_NOTE = ("Synced palette objects of classes other than GlobalPalette: modelled (mkSynced, re-synced by setGlobal and by "
+LEVEL_NOTE = ("Console help: the notes a user's `_get_hdoc_method_notes` returns (stored BoundMethodNotes, shared between "
+              "methods) are values in the model — rendering reads them and cannot write them; that the real code does not "
+              "mutate user-returned objects rests on the tie (histories asking about the same subject several times, "
+              "oracle = fresh-state rendering); the theorem for the help kind is history_free. Synced palette objects of classes other than GlobalPalette: modelled (mkSynced, re-synced by setGlobal and by "
               "registrations in the global configuration) and proved re-synced right after set_global (set_global_resyncs); "
               "that they stay in step over whole histories is proved for global_palette only (gp_synced), for the others it "
               "rests on the tie. Correspondence + oracle only: the layout state of a table (column widths negotiated at the first printing, "
